@@ -110,13 +110,55 @@ def _run_case(ch, st, bi):
             sample={'base_grid': bi, 'deviations': devs, 'json': text[:200]})
 
 
+def fraction_task(fracs):
+    """Every listed second-fraction spelling through the JSON time and date-time decoders."""
+    import hszinc as hs
+    st = Stats()
+    for f in fracs:
+        us = int(f[:6].ljust(6, '0'))
+        for kind, text, want in (('time', 'h:07:51:43.' + f, ('time', 7, 51, 43, us)),
+                                 ('dt', 't:2020-06-15T07:51:43.' + f + 'Z UTC', None)):
+            st.count('executions')
+            try:
+                got = O.observe(hs.parse_scalar(text, mode=hs.MODE_JSON), hs)
+            except Exception as e:  # noqa
+                st.fail('well-formed-json-rejected', {'spellings': 'fraction', 'exc': type(e).__name__}, {'fraction': f, 'kind': kind}, {'text': text})
+                continue
+            ok = (got == want) if kind == 'time' else (got[0] == 'dt' and got[1] % 1000000 == us)
+            if not ok:
+                st.fail('json-decoded-to-other-grid', {'spellings': 'fraction', 'kinds': kind, 'digits': len(f)}, {'fraction': f, 'kind': kind},
+                        {'text': text, 'expected_microseconds': us, 'observed': N.show(got)})
+        st.inputs.add(hash(('frac', f)) & 0xffffffffffff)
+    st.nontrivial |= st.inputs
+    st.outcomes.add(hash(('frac', bool(st.failures))))
+    st.c['states'] = st.c.get('states', 0) + len(fracs)
+    st.c['transitions'] = st.c.get('transitions', 0) + len(fracs)
+    if fracs:
+        st.samples.append({'time_fraction': fracs[0]})
+    return st
+
+
+def fractions(quick):
+    out = []
+    for n in (1, 2, 3, 4):
+        out += [str(i).zfill(n) for i in range(10 ** n)]
+    step = 97 if quick else 1
+    out += [str(i).zfill(6) for i in range(0, 10 ** 6, step)]
+    out += [str(i).zfill(5) for i in range(0, 10 ** 5, 13 if quick else 1)]
+    return out
+
+
 def run(ctx):
     from ref import selftest
+    from mc.explore import pmap, chunks
     selftest.quick_selftest()
     st = Stats()
-    bounds = []
+    fr = fractions(ctx.quick)
+    for part in pmap(fraction_task, [(c,) for c in chunks(fr, ctx.jobs * 2)], ctx.jobs):
+        st.merge(part)
+    bounds = [{'second_fractions': len(fr), 'complete': not ctx.quick}]
     for bi in range(len(BASE)):
-        d = 2 if ctx.quick else 3
+        d = 3
         before = st.c.get('executions', 0)
         explore(__name__, 'run_case', d, ctx.seed, ctx.jobs, st, args=(bi,))
         bounds.append({'base_grid': bi, 'max_deviations': d, 'documents': st.c.get('executions', 0) - before})
